@@ -89,9 +89,11 @@ func (is *c07Issuer) evalCase(c *h.Ctx, cat_ string, data []byte) (served bool) 
 		oParse = ref.ParsesP384(key)
 		oSig = oParse && oracleSig(key, sm, sig)
 		if oOpen && len(pt) >= 259 {
-			oSign = new(big.Int).SetBytes(pt[1:257]).Cmp(is.modulus) < 0
 			n := int(pt[257])<<8 | int(pt[258])
 			if len(pt) >= 259+n {
+				// blind signing is attempted on the decoded 256-byte message only; when the inner request does not
+				// decode the code carries on with the zero request, whose empty message circl's BlindSign refuses
+				oSign = new(big.Int).SetBytes(pt[1:257]).Cmp(is.modulus) <= 0
 				name := pt[259 : 259+n]
 				for len(name) > 0 && name[len(name)-1] == 0 {
 					name = name[:len(name)-1]
